@@ -1,69 +1,141 @@
-use cosmian_cover_crypt::{api::Covercrypt, traits::KemAc, AccessPolicy, EncryptionHint, QualifiedAttribute, MasterSecretKey, MasterPublicKey, UserSecretKey, XEnc};
+// History driver: executes operation scripts on the real public API of cosmian_cover_crypt and prints,
+// after every operation, the observation and canonical dumps of the objects involved, obtained by
+// parsing `serialize()` (the only knowledge of the wire format on this side; cross-checked against the
+// Coq Wire model by the C13 check).
+use cosmian_cover_crypt::{
+    api::Covercrypt, traits::KemAc, AccessPolicy, EncryptionHint, MasterPublicKey, MasterSecretKey,
+    QualifiedAttribute, UserSecretKey, XEnc,
+};
 use cosmian_crypto_core::{bytes_ser_de::Serializable, Secret};
 use std::io::{BufRead, Write};
-fn hex(b:&[u8])->String{ b.iter().map(|x| format!("{:02x}",x)).collect() }
-fn unhex(s:&str)->Vec<u8>{ (0..s.len()/2).map(|i| u8::from_str_radix(&s[2*i..2*i+2],16).unwrap()).collect() }
-fn tok(t:&str)->String{ String::from_utf8(unhex(&t[1..])).unwrap() }
-fn leb(b:&[u8],p:&mut usize)->usize{ let mut r=0u64; let mut s=0; loop { let x=b[*p]; *p+=1; r|=((x&0x7f) as u64)<<s; if x&0x80==0 {return r as usize} s+=7; } }
-const SK:usize=32; const PT:usize=32; const DK:usize=1632; const EK:usize=800; const CT:usize=768;
-fn right(b:&[u8],p:&mut usize)->String{ let l=leb(b,p); let r=format!("r{}",hex(&b[*p..*p+l])); *p+=l; r }
-fn rsk(b:&[u8],p:&mut usize)->String{ let h=b[*p]; *p+=1; let s=format!("{}/s{}",h,hex(&b[*p..*p+8])); *p+=SK; if h==1 {*p+=DK;} s }
-fn logx(kind:&str,b:&[u8]){ use std::io::Write; if let Ok(p)=std::env::var("KHEX"){ let mut f=std::fs::OpenOptions::new().create(true).append(true).open(p).unwrap(); writeln!(f,"{} {}",kind,hex(b)).unwrap(); } }
-fn dump_msk(m:&MasterSecretKey)->String{
-    let b=m.serialize().unwrap(); logx("MSK",&b); assert_eq!(b.len(), m.length()); let mut p=SK; let nt=leb(&b,&mut p); p+=nt*(SK+PT); let nu=leb(&b,&mut p);
-    for _ in 0..nu { let n=leb(&b,&mut p); p+=n*SK; }
-    let nr=leb(&b,&mut p); let mut items=vec![];
-    for _ in 0..nr { let r=right(&b,&mut p); let nk=leb(&b,&mut p); let mut ks=vec![]; for _ in 0..nk { let f=b[p]; p+=1; ks.push(format!("{}/{}",f,rsk(&b,&mut p))); } items.push(format!("{}=[{}]",r,ks.join(";"))); }
-    items.sort(); format!("MSK u={} {}",nu,items.join(" "))
-}
-fn dump_mpk(m:&MasterPublicKey)->String{
-    let b=m.serialize().unwrap(); logx("MPK",&b); assert_eq!(b.len(), m.length()); let mut p=0; let nt=leb(&b,&mut p); p+=nt*PT; let nr=leb(&b,&mut p); let mut items=vec![];
-    for _ in 0..nr { let r=right(&b,&mut p); let h=b[p]; p+=1; let t=hex(&b[p..p+8]); p+=PT; if h==1 {p+=EK;} items.push(format!("{}={}/p{}",r,h,t)); }
-    items.sort(); format!("MPK {}",items.join(" "))
-}
-fn dump_usk(u:&UserSecretKey)->String{
-    let b=u.serialize().unwrap(); logx("USK",&b); assert_eq!(b.len(), u.length()); let mut p=0; let n=leb(&b,&mut p); let id= if n==0 {"none".to_string()} else {format!("i{}",hex(&b[p..p+8]))}; p+=n*SK; let np=leb(&b,&mut p); p+=np*PT;
-    let nc=leb(&b,&mut p); let mut items=vec![];
-    for _ in 0..nc { let r=right(&b,&mut p); let nk=leb(&b,&mut p); let mut ks=vec![]; for _ in 0..nk { ks.push(rsk(&b,&mut p)); } items.push((r.clone(),format!("{}=[{}]",r,ks.join(";")))); }
-    items.sort_by(|a,b| a.0.cmp(&b.0)); format!("USK id={} {}",id,items.into_iter().map(|x|x.1).collect::<Vec<_>>().join(" "))
-}
-fn dump_enc(e:&XEnc)->String{
-    let b=e.serialize().unwrap(); logx("ENC",&b); assert_eq!(b.len(), e.length()); let mut p=16; let n=leb(&b,&mut p); p+=n*PT; let h=b[p]; p+=1; let m=leb(&b,&mut p); let _=CT; format!("ENC {} {}",h,m)
-}
-fn main(){
-    std::panic::set_hook(Box::new(|_|{}));
-    let stdin=std::io::stdin(); let out=std::io::stdout(); let mut out=std::io::BufWriter::new(out.lock());
-    let cc=Covercrypt::default();
-    let (m0,_)=cc.setup().unwrap(); let mut msk=m0;
-    let mut mpks:Vec<MasterPublicKey>=vec![]; let mut usks:Vec<UserSecretKey>=vec![]; let mut encs:Vec<(Secret<32>,XEnc)>=vec![];
-    for line in stdin.lock().lines(){
-        let line=line.unwrap(); let f:Vec<&str>=line.split(' ').collect();
-        macro_rules! res { ($e:expr) => { match $e { Ok(_)=>writeln!(out,"OK").unwrap(), Err(_)=>writeln!(out,"ERR").unwrap() } } }
-        macro_rules! pol { ($s:expr, $onerr:expr) => { match std::panic::catch_unwind(|| AccessPolicy::parse(&tok($s))) { Ok(Ok(p))=>p, _=>{ writeln!(out,"{}",$onerr).unwrap(); continue; } } } }
-        macro_rules! newmpk { ($r:expr) => { match $r { Ok(p)=>{ writeln!(out,"OK {} | {}",dump_mpk(&p),dump_msk(&msk)).unwrap(); mpks.push(p); } Err(_)=>writeln!(out,"ERR {}",dump_msk(&msk)).unwrap() } } }
-        let st=&mut msk.access_structure;
+
+#[path = "../common.rs"]
+mod common;
+use common::*;
+
+fn main() {
+    std::panic::set_hook(Box::new(|_| {}));
+    let stdin = std::io::stdin();
+    let out = std::io::stdout();
+    let mut out = std::io::BufWriter::new(out.lock());
+    let cc = Covercrypt::default();
+    let (m0, _) = cc.setup().unwrap();
+    let mut msk = m0;
+    let mut mpks: Vec<MasterPublicKey> = vec![];
+    let mut usks: Vec<UserSecretKey> = vec![];
+    let mut encs: Vec<(Secret<32>, XEnc)> = vec![];
+    for line in stdin.lock().lines() {
+        let line = line.unwrap();
+        let f: Vec<&str> = line.split(' ').collect();
+        macro_rules! pol {
+            ($s:expr) => {
+                match std::panic::catch_unwind(|| AccessPolicy::parse(&tok($s))) {
+                    Ok(Ok(p)) => Some(p),
+                    Ok(Err(_)) => None,
+                    Err(_) => { writeln!(out, "PANIC|{}", dump_msk(&msk)).unwrap(); continue; }
+                }
+            };
+        }
+        macro_rules! edit {
+            ($e:expr) => {{
+                let r = $e;
+                writeln!(out, "{}|{}", if r.is_ok() { "OK" } else { "ERR" }, dump_msk(&msk)).unwrap();
+            }};
+        }
+        macro_rules! newmpk {
+            ($r:expr) => {
+                match $r {
+                    Ok(p) => { writeln!(out, "OK|{}|{}", dump_msk(&msk), dump_mpk(&p)).unwrap(); mpks.push(p); }
+                    Err(_) => writeln!(out, "ERR|{}", dump_msk(&msk)).unwrap(),
+                }
+            };
+        }
         match f[0] {
-            "SETUP"=>{ let (m,p)=cc.setup().unwrap(); msk=m; mpks.clear(); usks.clear(); encs.clear(); writeln!(out,"OK {} | {}",dump_mpk(&p),dump_msk(&msk)).unwrap(); mpks.push(p); }
-            "AA"=>res!(st.add_anarchy(tok(f[1]))),
-            "AH"=>res!(st.add_hierarchy(tok(f[1]))),
-            "DD"=>res!(st.del_dimension(&tok(f[1]))),
-            "AT"=>{ let after= if f[4]=="-" {None} else {Some(tok(f[4]))}; res!(st.add_attribute(QualifiedAttribute::new(&tok(f[1]),&tok(f[2])), EncryptionHint::new(f[3]=="1"), after.as_deref())) }
-            "DT"=>res!(st.del_attribute(&QualifiedAttribute::new(&tok(f[1]),&tok(f[2])))),
-            "RN"=>res!(st.rename_attribute(&QualifiedAttribute::new(&tok(f[1]),&tok(f[2])), tok(f[3]))),
-            "DS"=>res!(st.disable_attribute(&QualifiedAttribute::new(&tok(f[1]),&tok(f[2])))),
-            "UPD"=>{ let r=cc.update_msk(&mut msk); newmpk!(r) }
-            "MPK"=>{ let r=msk.mpk(); newmpk!(r) }
-            "RK"=>{ let p=pol!(f[1], format!("ERR {}",dump_msk(&msk))); let r=cc.rekey(&mut msk,&p); newmpk!(r) }
-            "PR"=>{ let p=pol!(f[1], format!("ERR {}",dump_msk(&msk))); let r=cc.prune_master_secret_key(&mut msk,&p); newmpk!(r) }
-            "KG"=>{ let p=pol!(f[1], format!("ERR {}",dump_msk(&msk))); match cc.generate_user_secret_key(&mut msk,&p) { Ok(u)=>{ writeln!(out,"OK {} | {}",dump_usk(&u),dump_msk(&msk)).unwrap(); usks.push(u);} Err(_)=>writeln!(out,"ERR {}",dump_msk(&msk)).unwrap() } }
-            "RF"=>{ let k:usize=f[1].parse().unwrap(); if k>=usks.len(){ writeln!(out,"NOIDX").unwrap(); continue; } let r=cc.refresh_usk(&mut msk,&mut usks[k],f[2]=="1"); writeln!(out,"{} {} | {}", if r.is_ok(){"OK"}else{"ERR"}, dump_usk(&usks[k]), dump_msk(&msk)).unwrap(); }
-            "EN"=>{ let j:usize=f[1].parse().unwrap(); if j>=mpks.len(){ writeln!(out,"NOIDX").unwrap(); continue; } let p=pol!(f[2],"ERR"); match cc.encaps(&mpks[j],&p) { Ok((s,e))=>{ writeln!(out,"OK {}",dump_enc(&e)).unwrap(); encs.push((s,e)); } Err(_)=>writeln!(out,"ERR").unwrap() } }
-            "DE"=>{ let k:usize=f[1].parse().unwrap(); let e:usize=f[2].parse().unwrap(); if k>=usks.len()||e>=encs.len(){ writeln!(out,"NOIDX").unwrap(); continue; }
-                    if usks[k].count()==0 { writeln!(out,"DEAD").unwrap(); continue; }
-                    match cc.decaps(&usks[k],&encs[e].1) { Ok(Some(s))=> if s==encs[e].0 {writeln!(out,"SOME").unwrap()} else {writeln!(out,"WRONG").unwrap()}, Ok(None)=>writeln!(out,"NONE").unwrap(), Err(_)=>writeln!(out,"DERR").unwrap() } }
-            "RC"=>{ let j:usize=f[1].parse().unwrap(); let e:usize=f[2].parse().unwrap(); if j>=mpks.len()||e>=encs.len(){ writeln!(out,"NOIDX").unwrap(); continue; }
-                    match cc.recaps(&msk,&mpks[j],&encs[e].1) { Ok((s,x))=>{ writeln!(out,"OK {}",dump_enc(&x)).unwrap(); encs.push((s,x)); } Err(_)=>writeln!(out,"ERR").unwrap() } }
-            _=>writeln!(out,"??").unwrap(),
+            "SETUP" => {
+                let (m, p) = cc.setup().unwrap();
+                msk = m; mpks.clear(); usks.clear(); encs.clear();
+                writeln!(out, "OK|{}|{}", dump_msk(&msk), dump_mpk(&p)).unwrap();
+                mpks.push(p);
+            }
+            "AA" => edit!(msk.access_structure.add_anarchy(tok(f[1]))),
+            "AH" => edit!(msk.access_structure.add_hierarchy(tok(f[1]))),
+            "DD" => edit!(msk.access_structure.del_dimension(&tok(f[1]))),
+            "AT" => {
+                let after = if f[4] == "-" { None } else { Some(tok(f[4])) };
+                edit!(msk.access_structure.add_attribute(QualifiedAttribute::new(&tok(f[1]), &tok(f[2])), EncryptionHint::new(f[3] == "1"), after.as_deref()))
+            }
+            "DT" => edit!(msk.access_structure.del_attribute(&QualifiedAttribute::new(&tok(f[1]), &tok(f[2])))),
+            "RN" => edit!(msk.access_structure.rename_attribute(&QualifiedAttribute::new(&tok(f[1]), &tok(f[2])), tok(f[3]))),
+            "DS" => edit!(msk.access_structure.disable_attribute(&QualifiedAttribute::new(&tok(f[1]), &tok(f[2])))),
+            "UPD" => { let r = cc.update_msk(&mut msk); newmpk!(r) }
+            "MPK" => { let r = msk.mpk(); newmpk!(r) }
+            "RK" => match pol!(f[1]) { Some(p) => { let r = cc.rekey(&mut msk, &p); newmpk!(r) } None => writeln!(out, "ERR|{}", dump_msk(&msk)).unwrap() },
+            "PR" => match pol!(f[1]) { Some(p) => { let r = cc.prune_master_secret_key(&mut msk, &p); newmpk!(r) } None => writeln!(out, "ERR|{}", dump_msk(&msk)).unwrap() },
+            "KG" => match pol!(f[1]) {
+                Some(p) => match cc.generate_user_secret_key(&mut msk, &p) {
+                    Ok(u) => { writeln!(out, "OK|{}|{}", dump_msk(&msk), dump_usk(&u)).unwrap(); usks.push(u); }
+                    Err(_) => writeln!(out, "ERR|{}", dump_msk(&msk)).unwrap(),
+                },
+                None => writeln!(out, "ERR|{}", dump_msk(&msk)).unwrap(),
+            },
+            "RF" => {
+                let k: usize = f[1].parse().unwrap(); let k = if usks.is_empty() { usize::MAX } else { k % usks.len() };
+                if k >= usks.len() { writeln!(out, "NOIDX|{}", dump_msk(&msk)).unwrap(); continue; }
+                let r = cc.refresh_usk(&mut msk, &mut usks[k], f[2] == "1");
+                writeln!(out, "{}|{}|{}", if r.is_ok() { "OK" } else { "ERR" }, dump_msk(&msk), dump_usk(&usks[k])).unwrap();
+            }
+            "EN" => {
+                let j: usize = f[1].parse().unwrap(); let j = if mpks.is_empty() { usize::MAX } else { j % mpks.len() };
+                if j >= mpks.len() { writeln!(out, "NOIDX|{}", dump_msk(&msk)).unwrap(); continue; }
+                match pol!(f[2]) {
+                    Some(p) => match cc.encaps(&mpks[j], &p) {
+                        Ok((s, e)) => { writeln!(out, "OK|{}|{}", dump_msk(&msk), dump_enc(&e)).unwrap(); encs.push((s, e)); }
+                        Err(_) => writeln!(out, "ERR|{}", dump_msk(&msk)).unwrap(),
+                    },
+                    None => writeln!(out, "ERR|{}", dump_msk(&msk)).unwrap(),
+                }
+            }
+            "DE" => {
+                let k: usize = f[1].parse().unwrap(); let k = if usks.is_empty() { usize::MAX } else { k % usks.len() };
+                let e: usize = f[2].parse().unwrap(); let e = if encs.is_empty() { usize::MAX } else { e % encs.len() };
+                if k >= usks.len() || e >= encs.len() { writeln!(out, "NOIDX|{}", dump_msk(&msk)).unwrap(); continue; }
+                if usks[k].count() == 0 { writeln!(out, "DEAD|{}", dump_msk(&msk)).unwrap(); continue; }
+                let o = match cc.decaps(&usks[k], &encs[e].1) {
+                    Ok(Some(s)) => if s == encs[e].0 { "SOME" } else { "WRONG" },
+                    Ok(None) => "NONE",
+                    Err(_) => "DERR",
+                };
+                writeln!(out, "{}|{}", o, dump_msk(&msk)).unwrap();
+            }
+            "RC" => {
+                let j: usize = f[1].parse().unwrap(); let j = if mpks.is_empty() { usize::MAX } else { j % mpks.len() };
+                let e: usize = f[2].parse().unwrap(); let e = if encs.is_empty() { usize::MAX } else { e % encs.len() };
+                if j >= mpks.len() || e >= encs.len() { writeln!(out, "NOIDX|{}", dump_msk(&msk)).unwrap(); continue; }
+                match cc.recaps(&msk, &mpks[j], &encs[e].1) {
+                    Ok((s, x)) => { writeln!(out, "OK|{}|{}", dump_msk(&msk), dump_enc(&x)).unwrap(); encs.push((s, x)); }
+                    Err(_) => writeln!(out, "ERR|{}", dump_msk(&msk)).unwrap(),
+                }
+            }
+            // serialization round trips: the deserialized object REPLACES the original for the rest of the history
+            "RT" => {
+                let mut ok = true;
+                match f[1] {
+                    "MSK" => { let b = msk.serialize().unwrap(); ok &= b.len() == msk.length();
+                        match MasterSecretKey::deserialize(&b) { Ok(m2) => { ok &= m2 == msk; msk = m2; } Err(_) => ok = false } }
+                    "MPK" => { let j: usize = f[2].parse().unwrap(); let j = if mpks.is_empty() { usize::MAX } else { j % mpks.len() }; if j >= mpks.len() { writeln!(out, "NOIDX|{}", dump_msk(&msk)).unwrap(); continue; }
+                        let b = mpks[j].serialize().unwrap(); ok &= b.len() == mpks[j].length();
+                        match MasterPublicKey::deserialize(&b) { Ok(p2) => { ok &= p2 == mpks[j]; mpks[j] = p2; } Err(_) => ok = false } }
+                    "USK" => { let k: usize = f[2].parse().unwrap(); let k = if usks.is_empty() { usize::MAX } else { k % usks.len() }; if k >= usks.len() { writeln!(out, "NOIDX|{}", dump_msk(&msk)).unwrap(); continue; }
+                        let b = usks[k].serialize().unwrap(); ok &= b.len() == usks[k].length();
+                        match UserSecretKey::deserialize(&b) { Ok(u2) => { ok &= u2 == usks[k]; usks[k] = u2; } Err(_) => ok = false } }
+                    "ENC" => { let e: usize = f[2].parse().unwrap(); let e = if encs.is_empty() { usize::MAX } else { e % encs.len() }; if e >= encs.len() { writeln!(out, "NOIDX|{}", dump_msk(&msk)).unwrap(); continue; }
+                        let b = encs[e].1.serialize().unwrap(); ok &= b.len() == encs[e].1.length();
+                        match XEnc::deserialize(&b) { Ok(x2) => { ok &= x2 == encs[e].1; encs[e].1 = x2; } Err(_) => ok = false } }
+                    _ => ok = false,
+                }
+                writeln!(out, "{}|{}", if ok { "OK" } else { "RTFAIL" }, dump_msk(&msk)).unwrap();
+            }
+            _ => writeln!(out, "??").unwrap(),
         }
     }
 }
